@@ -250,7 +250,20 @@ def r6(ctx):
     ctx.floor(R, 1)
 
 
+def r7(ctx):
+    R = "C09-R7"
+    ctx.rule(R, "sibling agreement: join_multicast_v4 ~ v6, leave_multicast_v4 ~ v6 and send_to ~ try_send_to use the same in-repo callees "
+                "and touch the same fields (expected difference: the ipv4 / ipv6 interface validation helper)")
+    d = ["turmoil::net::udp::verify_ipv4_bind_interface", "turmoil::net::udp::verify_ipv6_bind_interface"]
+    U = "turmoil::net::udp::UdpSocket::"
+    sibling_rule(ctx, R, U + "join_multicast_v4", U + "join_multicast_v6", d)
+    sibling_rule(ctx, R, U + "leave_multicast_v4", U + "leave_multicast_v6", d)
+    sibling_rule(ctx, R, U + "send_to", U + "try_send_to")
+    ctx.floor(R, 3)
+
+
 def run(ctx):
+    r7(ctx)
     r1(ctx)
     r2(ctx)
     r3(ctx)
